@@ -238,7 +238,7 @@ func (a *An) currentGates() (map[string][]string, map[string][]string) {
 		}
 		for _, s := range a.gateSitesOf(f, 0, map[*ssa.Function]bool{f: true}) {
 			key := a.C.alias(f) + "|" + s.callee
-			g := strings.Join(s.gates, " & ")
+			g := strings.Join(normGates(s.gates), " & ")
 			if g == "" {
 				g = "always"
 			}
@@ -993,8 +993,8 @@ func (a *An) currentReturns() map[string][]string {
 		res := f.Signature.Results()
 		if res.Len() == 1 {
 			if b, ok := res.At(0).Type().Underlying().(*types.Basic); ok && b.Kind() == types.Bool && f.Recover == nil {
-				t := a.unionMarks(a.boolOutcome(f, 0, true, 0), 0)
-				fl := a.unionMarks(a.boolOutcome(f, 0, false, 0), 0)
+				t := normGates(a.unionMarks(a.boolOutcome(f, 0, true, 0), 0))
+				fl := normGates(a.unionMarks(a.boolOutcome(f, 0, false, 0), 0))
 				out[name] = []string{"T: " + strings.Join(t, " & "), "F: " + strings.Join(fl, " & ")}
 				continue
 			}
@@ -1016,7 +1016,7 @@ func (a *An) currentReturns() map[string][]string {
 		}
 		var l []string
 		for key, gs := range byRes {
-			l = append(l, strings.Join(sortedKeys(gs), " & ")+" => "+key)
+			l = append(l, strings.Join(normGates(sortedKeys(gs)), " & ")+" => "+key)
 		}
 		if len(l) > 0 {
 			sort.Strings(l)
@@ -1233,6 +1233,15 @@ func (a *An) returnEntries(f *ssa.Function, d int) []retEntry {
 				}
 			case *ssa.Call:
 				call = x
+			}
+			if res[i] == "·" {
+				// a value the path has tested to be nil is nil
+				t := a.C.Term(v)
+				for _, g := range bg[b] {
+					if g == "("+t+" == nil)=T" || g == "(nil == "+t+")=T" {
+						res[i] = "nil"
+					}
+				}
 			}
 			if call != nil {
 				// only in tail position: the call sits in the block of the return, nothing was decided on its results
@@ -1460,6 +1469,19 @@ func (a *An) callsOf(f *ssa.Function, depth int, stack map[*ssa.Function]bool, i
 				if sc.Pkg != nil && (sc.Pkg.Pkg.Path() == "fmt" || sc.Pkg.Pkg.Path() == "bufio") {
 					continue // texts of errors and of the debug dump
 				}
+				if a.C.arithOld(sc) {
+					continue // only names an expression over its arguments: part of the terms it occurs in
+				}
+				if a.formulaWrapper(sc) && depth < 8 && !stack[sc] {
+					// a function that only names a formula over other functions of the library (generateDZKP(r, a, c) =
+					// subMod(r, mul(a, c), q)) reads as that formula: writing the formula out, or using the name, is the same
+					stack[sc] = true
+					restore := a.bindArgs(sc, call)
+					a.callsOf(sc, depth+1, stack, into)
+					restore()
+					delete(stack, sc)
+					continue
+				}
 				if erasePrims[sc.Name()] && sc.Signature.Recv() == nil && len(com.Args) > 0 && freshLocal(com.Args[0], 0) {
 					continue // erasing a buffer the function made itself (see W.erase-sites)
 				}
@@ -1501,6 +1523,37 @@ func (a *An) callsOf(f *ssa.Function, depth int, stack map[*ssa.Function]bool, i
 			into[strings.ReplaceAll(t, "(phi((↺ + 1) / -1) + 1)", "phi((↺ + 1) / 0)")] = true
 		}
 	}
+}
+
+// formulaWrapper: a reviewed function of the library that is one straight-line block without stores or other effects of
+// its own, returns one value, and calls only functions of the library (at least one).
+func (a *An) formulaWrapper(g *ssa.Function) bool {
+	if g == nil || !a.C.IsLib(g) || a.C.isNew(g) || len(g.Blocks) != 1 || len(g.FreeVars) > 0 || g.Signature.Results().Len() != 1 || g.Recover != nil {
+		return false
+	}
+	n := 0
+	for _, in := range g.Blocks[0].Instrs {
+		switch x := in.(type) {
+		case *ssa.Store:
+			al, ok := x.Addr.(*ssa.Alloc)
+			if !ok || spilledParam(al) == nil {
+				return false
+			}
+		case *ssa.MapUpdate, *ssa.Send, *ssa.Go, *ssa.Defer, *ssa.Panic, *ssa.RunDefers, *ssa.MakeClosure:
+			return false
+		case ssa.CallInstruction:
+			com := x.Common()
+			if _, isB := com.Value.(*ssa.Builtin); isB {
+				continue
+			}
+			sc := com.StaticCallee()
+			if sc == nil || !a.C.IsLib(sc) || len(com.Args) != len(sc.Params) {
+				return false
+			}
+			n++
+		}
+	}
+	return n > 0
 }
 
 func (a *An) currentCalls() map[string][]string {
